@@ -1,7 +1,7 @@
 #!/bin/bash
 # confirm_seed.sh <seed id, e.g. C07a> : confirm a seeded change in its scratch worktree
 # (pristine: demo passes; patched: 78 existing tests pass, demo fails). Writes confirm.txt.
-ID=$1; BASE=${ID:0:3}; WT=/tmp/wt/$BASE; D=/tmp/seed_out/$ID
+ID=$1; BASE=${ID:0:3}; WT=${WTROOT:-/tmp/wt}/$BASE; D=/tmp/seed_out/$ID
 cd $WT || exit 2
 git checkout -q -- . ; rm -f tests/seed_demo.rs
 cp $D/seed_demo.rs tests/seed_demo.rs
